@@ -621,6 +621,29 @@ func resolveDescendant(c xnode, path []xml.Name) string {
 	return ""
 }
 
+// descendantExists reports whether the leaf a unique path names is present
+// (resolveDescendant cannot tell an absent leaf from an empty value).
+func descendantExists(c xnode, path []xml.Name) bool {
+	if len(path) == 0 {
+		return false
+	}
+	hd, tl := path[0], path[1:]
+	for _, ch := range c.children(xutils.Sorted) {
+		if ch.YangDataName() != hd.Local {
+			continue
+		}
+		switch c.schema().Child(ch.YangDataName()).(type) {
+		case Container:
+			return descendantExists(ch, tl)
+		case Leaf:
+			return len(ch.YangDataValuesNoSorting()) > 0
+		default:
+			return false
+		}
+	}
+	return false
+}
+
 // If, and only if, the given config node contains ALL sub-nodes listed in
 // the unique statement (uniques), return a string containing the value
 // for each sub-node, separated by the 'middle dot' character.
@@ -631,15 +654,20 @@ func getUniqueKey(c xnode, uniques [][]xml.Name) string {
 
 	var outs []string
 	for _, uniq := range uniques {
-		desc := resolveDescendant(c, uniq)
-		if desc == "" {
+		if !descendantExists(c, uniq) {
 			return ""
 		}
-		outs = append(outs, desc)
+		// An empty string is a value like any other
+		outs = append(outs, resolveDescendant(c, uniq))
 	}
-	//use middle dot (U+00B7) to join strings so we don't have
-	//problems with string values.
-	return strings.Join(outs, "·")
+	// Prefix every value with its length so that neither empty values nor
+	// values containing a separator can make different tuples look equal
+	// (or a present tuple look absent).
+	var key strings.Builder
+	for _, o := range outs {
+		fmt.Fprintf(&key, "%d:%s", len(o), o)
+	}
+	return key.String()
 }
 
 func xmlPathToPath(path []xml.Name) []string {
